@@ -337,8 +337,8 @@ func checkBig(c *core.Ctx, bc *bigCase) {
 		return
 	}
 	// ---- model: header from sizes, then the children ----
-	sizes := make([]int, len(layout))   // in layout order
-	offs := make([]int, len(t.Elems))   // offset of t.Elems[i] in the payload
+	sizes := make([]int, len(layout)) // in layout order
+	offs := make([]int, len(t.Elems)) // offset of t.Elems[i] in the payload
 	total := 0
 	for p, i := range layout {
 		sizes[p], offs[i] = specSize(t.Elems[i]), total
